@@ -116,6 +116,15 @@ Section Shared.
   Definition calls (cs : list (config * input)) : list action :=
     List.concat (map (fun c => call (fst c) (snd c)) cs).
 
+  (* a program with its Force actions (table dereferences by scale / convert / fit between or during
+     parses) erased: what is left must be the calls *)
+  Fixpoint no_force (p : list action) : list action :=
+    match p with
+    | [] => []
+    | Force :: r => no_force r
+    | a :: r => a :: no_force r
+    end.
+
   Definition reachable (w : world) : Prop := exists tr, w = run world0 tr.
   Definition table_ok (t : option ftable) : Prop := t = None \/ t = Some mk_table.
 End Shared.
